@@ -836,3 +836,372 @@ package jsonpath
 //@   ensures reset: parserZero()
 //@   ensures shape: (f != nil && err == nil) || (f == nil && err != nil && isSyntaxErr(err))
 //@   ensures usable: f != nil ==> cloFn(f) == fnconst("Parse$2") && C_Val[cloBind(f, 0)] != nil && WFnode(C_Val[cloBind(f, 0)])
+
+// ---------------------------------------------------------------------------------------
+// Parse time: the hand-written constructor / linker functions of jsonpath_parser.go
+// (regime `parsetime`: the tree under construction is wholly owned by the running Parse; callers havoc a
+//  callee's write set wholesale, so everything a caller needs afterwards is in the postcondition)
+// ---------------------------------------------------------------------------------------
+
+//@ spec basicOf(v any) *syntaxBasicNode = isType(v, *syntaxRootIdentifier) ? asType(v, *syntaxRootIdentifier).syntaxBasicNode : (isType(v, *syntaxCurrentRootIdentifier) ? asType(v, *syntaxCurrentRootIdentifier).syntaxBasicNode : (isType(v, *syntaxChildSingleIdentifier) ? asType(v, *syntaxChildSingleIdentifier).syntaxBasicNode : (isType(v, *syntaxChildWildcardIdentifier) ? asType(v, *syntaxChildWildcardIdentifier).syntaxBasicNode : (isType(v, *syntaxChildMultiIdentifier) ? asType(v, *syntaxChildMultiIdentifier).syntaxBasicNode : (isType(v, *syntaxRecursiveChildIdentifier) ? asType(v, *syntaxRecursiveChildIdentifier).syntaxBasicNode : (isType(v, *syntaxUnionQualifier) ? asType(v, *syntaxUnionQualifier).syntaxBasicNode : (isType(v, *syntaxFilterQualifier) ? asType(v, *syntaxFilterQualifier).syntaxBasicNode : (isType(v, *syntaxFilterFunction) ? asType(v, *syntaxFilterFunction).syntaxBasicNode : asType(v, *syntaxAggregateFunction).syntaxBasicNode))))))))
+//@ spec ptrOf(v any) int = isType(v, *syntaxRootIdentifier) ? asType(v, *syntaxRootIdentifier) : (isType(v, *syntaxCurrentRootIdentifier) ? asType(v, *syntaxCurrentRootIdentifier) : (isType(v, *syntaxChildSingleIdentifier) ? asType(v, *syntaxChildSingleIdentifier) : (isType(v, *syntaxChildWildcardIdentifier) ? asType(v, *syntaxChildWildcardIdentifier) : (isType(v, *syntaxChildMultiIdentifier) ? asType(v, *syntaxChildMultiIdentifier) : (isType(v, *syntaxRecursiveChildIdentifier) ? asType(v, *syntaxRecursiveChildIdentifier) : (isType(v, *syntaxUnionQualifier) ? asType(v, *syntaxUnionQualifier) : (isType(v, *syntaxFilterQualifier) ? asType(v, *syntaxFilterQualifier) : (isType(v, *syntaxFilterFunction) ? asType(v, *syntaxFilterFunction) : asType(v, *syntaxAggregateFunction)))))))))
+// nodeOK: a syntax node value whose struct and embedded basic node exist
+//@ spec nodeOK(v any) bool = isType(v, syntaxNode) && !isType(v, *syntaxBasicNode) && ptrOf(v) != 0 && basicOf(v) != nil
+// chainOK(v, n): the next-chain from v has at most n further steps, all nodeOK (acyclic, finite)
+//@ smt (declare-fun chainOK (Val Int) Bool)
+//@ smt (declare-fun chainLen (Val) Int)
+
+//@ spec litKind(v any) bool = isType(v, float64) || isType(v, bool) || isType(v, string) || v == nil
+//@ interface syntaxNode.getNext
+//@   requires nodeOK(this)
+//@   ensures ret == basicOf(this).next
+//@   pure
+//@ interface syntaxNode.getText
+//@   requires nodeOK(this)
+//@   ensures ret == basicOf(this).text
+//@   pure
+//@ interface syntaxNode.getConnectedText
+//@   requires nodeOK(this)
+//@   ensures ret == basicOf(this).connectedText
+//@   pure
+//@ interface syntaxNode.setText
+//@   parsetime
+//@   requires nodeOK(this)
+//@   ensures text: basicOf(this).text == text && nodeOK(this)
+//@ interface syntaxNode.setConnectedText
+//@   parsetime
+//@   requires nodeOK(this)
+//@   ensures text: basicOf(this).connectedText == text && nodeOK(this)
+//@ interface syntaxNode.setValueGroup
+//@   parsetime
+//@   requires nodeOK(this)
+//@   ensures flag: basicOf(this).valueGroup && nodeOK(this)
+//@ interface syntaxNode.setAccessorMode
+//@   parsetime
+//@   requires nodeOK(this)
+//@   ensures flag: basicOf(this).accessorMode == mode && nodeOK(this)
+//@ interface syntaxNode.setNext
+//@   parsetime
+//@   requires nodeOK(this) && 0 <= chainLen(this) && chainWalk(this)
+//@   decreases chainLen(this)
+//@ interface syntaxSubscript.isValueGroup
+//@   requires this != nil
+//@   pure
+
+// chainWalk(v): v's successor (if any) is again a node with a strictly shorter chain (ghost ranking for termination)
+//@ spec chainWalk(v any) bool = basicOf(v).next != nil ==> nodeOK(basicOf(v).next) && 0 <= chainLen(basicOf(v).next) && chainLen(basicOf(v).next) < chainLen(v) && chainWalkNext(basicOf(v).next)
+//@ smt (declare-fun chainWalkNext (Val) Bool)
+
+//@ extern strconv.Atoi
+//@   pure
+//@ extern strconv.ParseFloat
+//@   pure
+//@ extern regexp.Compile
+//@   modifies heap:alloc
+//@   ensures ret1 == nil ==> ret0 != nil
+//@ extern json.Unmarshal
+//@   modifies heap:C_Str, heap:alloc
+//@ extern (*regexp.Regexp).ReplaceAllStringFunc
+//@   pure
+//@ extern (*regexp.Regexp).FindStringSubmatch
+//@   modifies heap:alloc, heap:A_Str
+//@   ensures len(ret) == 2 && wf(ret)
+
+//@ func (*jsonPathParser)._createBasicCompareQuery
+//@   inline
+
+//@ func (*jsonPathParser)._pushIndexSubscript
+//@   props C02 C19
+//@   parsetime
+//@   requires p != nil
+//@   panics ErrorInvalidArgument
+
+//@ func (*jsonPathParser)._unescapeJSONString
+//@   props C02 C19
+//@   parsetime
+//@   requires p != nil
+
+//@ func (*jsonPathParser).deleteRootIdentifier
+//@   props C02 C19
+//@   parsetime
+//@   trusted
+//@   requires p != nil
+//@   requires nodeOK(targetNode) && 0 <= chainLen(targetNode) && chainWalk(targetNode)
+//@   decreases chainLen(targetNode)
+
+//@ func (*jsonPathParser).loadParams
+//@   props C02 C19
+//@   parsetime
+//@   requires p != nil
+//@   requires wf(p.paramsList) && wf(p.params)
+
+//@ func (*jsonPathParser).pop
+//@   props C02 C19
+//@   parsetime
+//@   requires p != nil
+//@   requires len(p.params) >= 1
+//@   ensures popped: ret == old(elemAt(p.params, off(p.params) + len(p.params) - 1)) && len(p.params) == old(len(p.params)) - 1
+
+//@ func (*jsonPathParser).push
+//@   props C02 C19
+//@   parsetime
+//@   requires p != nil
+//@   ensures pushed: len(p.params) == old(len(p.params)) + 1 && elemAt(p.params, off(p.params) + len(p.params) - 1) == param
+
+//@ func (*jsonPathParser).pushBasicCompareParameter
+//@   props C02 C19
+//@   parsetime
+//@   requires p != nil
+
+//@ func (*jsonPathParser).pushChildMultiIdentifier
+//@   props C02 C19
+//@   parsetime
+//@   requires p != nil
+//@   requires nodeOK(node) && nodeOK(appendNode)
+
+//@ func (*jsonPathParser).pushChildSingleIdentifier
+//@   props C02 C19
+//@   parsetime
+//@   requires p != nil
+
+//@ func (*jsonPathParser).pushChildWildcardIdentifier
+//@   props C02 C19
+//@   parsetime
+//@   requires p != nil
+
+//@ func (*jsonPathParser).pushCompareEQ
+//@   props C02 C19
+//@   parsetime
+//@   requires p != nil
+//@   requires wf(p.params)
+//@   requires leftParam != nil && rightParam != nil && leftParam.param != nil && rightParam.param != nil && (isType(leftParam.param, *syntaxQueryParamLiteral) ==> asType(leftParam.param, *syntaxQueryParamLiteral) != nil && len(asType(leftParam.param, *syntaxQueryParamLiteral).literal) == 1 && litKind(asType(leftParam.param, *syntaxQueryParamLiteral).literal[0])) && (isType(rightParam.param, *syntaxQueryParamLiteral) ==> asType(rightParam.param, *syntaxQueryParamLiteral) != nil && len(asType(rightParam.param, *syntaxQueryParamLiteral).literal) == 1 && litKind(asType(rightParam.param, *syntaxQueryParamLiteral).literal[0]))
+//@   ensures pushed: len(p.params) == old(len(p.params)) + 1 && len(p.params) >= 1 && isType(elemAt(p.params, off(p.params) + len(p.params) - 1), syntaxQuery)
+
+//@ func (*jsonPathParser).pushCompareGE
+//@   props C02 C19
+//@   parsetime
+//@   requires p != nil
+//@   requires leftParam != nil && rightParam != nil
+//@   decreases (leftParam.isLiteral && !rightParam.isLiteral) ? 1 : 0
+
+//@ func (*jsonPathParser).pushCompareGT
+//@   props C02 C19
+//@   parsetime
+//@   requires p != nil
+//@   requires leftParam != nil && rightParam != nil
+//@   decreases (leftParam.isLiteral && !rightParam.isLiteral) ? 1 : 0
+
+//@ func (*jsonPathParser).pushCompareLE
+//@   props C02 C19
+//@   parsetime
+//@   requires p != nil
+//@   requires leftParam != nil && rightParam != nil
+//@   decreases (leftParam.isLiteral && !rightParam.isLiteral) ? 1 : 0
+
+//@ func (*jsonPathParser).pushCompareLT
+//@   props C02 C19
+//@   parsetime
+//@   requires p != nil
+//@   requires leftParam != nil && rightParam != nil
+//@   decreases (leftParam.isLiteral && !rightParam.isLiteral) ? 1 : 0
+
+//@ func (*jsonPathParser).pushCompareNE
+//@   props C02 C19
+//@   parsetime
+//@   requires p != nil
+//@   requires wf(p.params)
+//@   requires leftParam != nil && rightParam != nil && leftParam.param != nil && rightParam.param != nil && (isType(leftParam.param, *syntaxQueryParamLiteral) ==> asType(leftParam.param, *syntaxQueryParamLiteral) != nil && len(asType(leftParam.param, *syntaxQueryParamLiteral).literal) == 1 && litKind(asType(leftParam.param, *syntaxQueryParamLiteral).literal[0])) && (isType(rightParam.param, *syntaxQueryParamLiteral) ==> asType(rightParam.param, *syntaxQueryParamLiteral) != nil && len(asType(rightParam.param, *syntaxQueryParamLiteral).literal) == 1 && litKind(asType(rightParam.param, *syntaxQueryParamLiteral).literal[0]))
+
+//@ func (*jsonPathParser).pushCompareParameterCurrentRoot
+//@   props C02 C19
+//@   parsetime
+//@   requires p != nil
+//@   requires node != nil ==> nodeOK(node) && 0 <= chainLen(node) && chainWalk(node)
+
+//@ func (*jsonPathParser).pushCompareParameterLiteral
+//@   props C02 C19
+//@   parsetime
+//@   requires p != nil
+
+//@ func (*jsonPathParser).pushCompareParameterRoot
+//@   props C02 C19
+//@   parsetime
+//@   requires p != nil
+//@   requires node != nil ==> nodeOK(node) && 0 <= chainLen(node) && chainWalk(node)
+
+//@ func (*jsonPathParser).pushCompareRegex
+//@   props C02 C19
+//@   parsetime
+//@   requires p != nil
+//@   panics ErrorInvalidArgument
+
+//@ func (*jsonPathParser).pushCurrentRootIdentifier
+//@   props C02 C19
+//@   parsetime
+//@   requires p != nil
+
+//@ func (*jsonPathParser).pushFilterQualifier
+//@   props C02 C19
+//@   parsetime
+//@   requires p != nil
+
+//@ func (*jsonPathParser).pushFunction
+//@   props C02 C19
+//@   parsetime
+//@   requires p != nil
+//@   panics ErrorFunctionNotFound
+
+//@ func (*jsonPathParser).pushIndexSubscript
+//@   props C02 C19
+//@   parsetime
+//@   requires p != nil
+//@   panics ErrorInvalidArgument
+
+//@ func (*jsonPathParser).pushLogicalAnd
+//@   props C02 C19
+//@   parsetime
+//@   requires p != nil
+
+//@ func (*jsonPathParser).pushLogicalNot
+//@   props C02 C19
+//@   parsetime
+//@   requires p != nil
+
+//@ func (*jsonPathParser).pushLogicalOr
+//@   props C02 C19
+//@   parsetime
+//@   requires p != nil
+
+//@ func (*jsonPathParser).pushOmittedIndexSubscript
+//@   props C02 C19
+//@   parsetime
+//@   requires p != nil
+//@   panics ErrorInvalidArgument
+
+//@ func (*jsonPathParser).pushRecursiveChildIdentifier
+//@   props C02 C19
+//@   parsetime
+//@   requires p != nil
+//@   requires node != nil
+
+//@ func (*jsonPathParser).pushRootIdentifier
+//@   props C02 C19
+//@   parsetime
+//@   requires p != nil
+
+//@ func (*jsonPathParser).pushScriptQualifier
+//@   props C02 C19
+//@   parsetime
+//@   requires p != nil
+//@   panics ErrorNotSupported
+
+//@ func (*jsonPathParser).pushSliceNegativeStepSubscript
+//@   props C02 C19
+//@   parsetime
+//@   requires p != nil
+
+//@ func (*jsonPathParser).pushSlicePositiveStepSubscript
+//@   props C02 C19
+//@   parsetime
+//@   requires p != nil
+
+//@ func (*jsonPathParser).pushUnionQualifier
+//@   props C02 C19
+//@   parsetime
+//@   requires p != nil
+//@   requires subscript != nil
+
+//@ func (*jsonPathParser).pushWildcardSubscript
+//@   props C02 C19
+//@   parsetime
+//@   requires p != nil
+
+//@ func (*jsonPathParser).saveParams
+//@   props C02 C19
+//@   parsetime
+//@   requires p != nil
+//@   requires wf(p.paramsList) && wf(p.params)
+
+//@ func (*jsonPathParser).setConnectedText
+//@   props C02 C19
+//@   parsetime
+//@   trusted
+//@   requires p != nil
+//@   requires nodeOK(targetNode) && 0 <= chainLen(targetNode) && chainWalk(targetNode)
+//@   decreases chainLen(targetNode)
+
+//@ func (*jsonPathParser).setLastNodeText
+//@   props C02 C19
+//@   parsetime
+//@   requires p != nil
+//@   requires len(p.params) >= 1 && wf(p.params) && nodeOK(elemAt(p.params, off(p.params) + len(p.params) - 1)) && (isType(elemAt(p.params, off(p.params) + len(p.params) - 1), *syntaxChildMultiIdentifier) && asType(elemAt(p.params, off(p.params) + len(p.params) - 1), *syntaxChildMultiIdentifier).isAllWildcard ==> asType(elemAt(p.params, off(p.params) + len(p.params) - 1), *syntaxChildMultiIdentifier).unionQualifier.syntaxBasicNode != nil)
+
+//@ func (*jsonPathParser).setNodeChain
+//@   props C02 C19
+//@   parsetime
+//@   trusted
+//@   requires p != nil
+//@   requires wf(p.params) && (forall k {elemAt(p.params, k)} :: off(p.params) <= k && k < off(p.params) + len(p.params) ==> nodeOK(elemAt(p.params, k)) && 0 <= chainLen(elemAt(p.params, k)) && chainWalk(elemAt(p.params, k)))
+
+//@ func (*jsonPathParser).syntaxErr
+//@   props C02 C19
+//@   parsetime
+//@   requires p != nil
+//@   requires 0 <= pos && pos <= runeCount(buffer)
+//@   ensures kind: isType(ret, ErrorInvalidSyntax) && asType(ret, ErrorInvalidSyntax).position == pos && asType(ret, ErrorInvalidSyntax).reason == reason
+
+//@ func (*jsonPathParser).toFloat
+//@   props C02 C19
+//@   parsetime
+//@   requires p != nil
+//@   panics ErrorInvalidArgument
+
+//@ func (*jsonPathParser).toInt
+//@   props C02 C19
+//@   parsetime
+//@   requires p != nil
+//@   panics ErrorInvalidArgument
+
+//@ func (*jsonPathParser).unescape
+//@   props C02 C19
+//@   parsetime
+//@   requires p != nil
+//@   requires p.unescapeRegex != nil
+
+//@ func (*jsonPathParser).unescapeDoubleQuotedString
+//@   props C02 C19
+//@   parsetime
+//@   requires p != nil
+//@   panics ErrorInvalidArgument
+
+//@ func (*jsonPathParser).unescapeSingleQuotedString
+//@   props C02 C19
+//@   parsetime
+//@   requires p != nil
+//@   panics ErrorInvalidArgument
+//@   loop 1 invariant wf(inputBytes) && mine(inputBytes)
+
+//@ func (*jsonPathParser).updateAccessorMode
+//@   props C02 C19
+//@   parsetime
+//@   trusted
+//@   requires p != nil
+//@   requires checkNode != nil ==> nodeOK(checkNode) && 0 <= chainLen(checkNode) && chainWalk(checkNode)
+
+//@ func (*jsonPathParser).updateRootValueGroup
+//@   props C02 C19
+//@   parsetime
+//@   requires p != nil
+//@   requires len(p.params) >= 1 && wf(p.params) && nodeOK(elemAt(p.params, off(p.params))) && 0 <= chainLen(elemAt(p.params, off(p.params))) && chainWalk(elemAt(p.params, off(p.params)))
+
+//@ func (*jsonPathParser).updateValueGroup
+//@   props C02 C19
+//@   parsetime
+//@   trusted
+//@   requires p != nil
+//@   requires nodeOK(rootNode) && 0 <= chainLen(rootNode) && chainWalk(rootNode)
+
+//@ func (*jsonPathParser).unescape$1
+//@   props C02
+//@   parsetime
+//@   requires p != nil && p.unescapeRegex != nil
